@@ -139,3 +139,26 @@ Record LiveInv (s : st) : Prop := {
   li_quits : 1 <= count is_exit (pcs s) ->
       1 <= list_sum (map (count is_quit) (deq s)) + count holds_quit (pcs s) + count is_sendquit (pcs s)
 }.
+
+(* ---- infinite executions and fairness ---- *)
+Section Fairness.
+  Variable resp : nat -> walk_state.
+
+  (* an infinite execution: a schedule sigma and the states tau it goes through, every step enabled *)
+  Definition execution (s0 : st) (sigma : nat -> choice) (tau : nat -> st) : Prop :=
+    tau 0 = s0 /\ forall i, step resp (tau i) (sigma i) = Some (tau (S i)).
+
+  (* weak fairness of the thread scheduler: a worker that has not exited is scheduled again *)
+  Definition sched_fair (sigma : nat -> choice) (tau : nat -> st) : Prop :=
+    forall i w p, nth_error (pcs (tau i)) w = Some p -> is_exit p = false ->
+                  exists j, i <= j /\ worker_of (sigma j) = w.
+
+  (* a steal attempt that fails although the victim's deque is not empty (crossbeam's Steal::Retry,
+     which needs a concurrent operation on the same deque) *)
+  Definition spurious_fail (s : st) (c : choice) : Prop :=
+    exists w cx v vs, c = Own w /\ nth_error (pcs s) w = Some (PSteal cx (v :: vs)) /\ nth v (deq s) [] <> [].
+
+  (* fairness of the deque: only finitely many spurious failures *)
+  Definition steal_fair (sigma : nat -> choice) (tau : nat -> st) : Prop :=
+    exists K, forall i, K <= i -> ~ spurious_fail (tau i) (sigma i).
+End Fairness.
